@@ -90,6 +90,7 @@ namespace vf::vt {
         bool allow_timeouts = true;          // may the scheduler fire finite deadlines by choice?
         bool timeouts_only_when_idle = false;    // fire a deadline only when no thread can run (excludes timeout-vs-notify races)
         long long excluded_timeout_choices = 0;
+        long long tokens_consumed = 0;    // wake-ups that arrived before the target's suspension completed
         std::function<void(int site, void const* obj, std::uint64_t a, std::uint64_t b)> on_site;
 
         int add(std::function<void()> f)
@@ -270,6 +271,7 @@ namespace vf::vt {
             // the wake-up arrived before the suspension completed: consume it (same meaning as the
             // task path, where the waker retries until the target is suspended)
             --me.pending_resume;
+            ++s->tokens_consumed;
         }
         else
         {
@@ -323,7 +325,7 @@ namespace vf::vt {
         LThread& me = *s->ts[static_cast<std::size_t>(id)];
         ++s->progress;
         if (vt_trace()) std::fprintf(stderr, "  [vt] T%d sleep_until (tokens=%d)\n", id, me.pending_resume);
-        if (me.pending_resume > 0) { --me.pending_resume; }
+        if (me.pending_resume > 0) { --me.pending_resume; ++s->tokens_consumed; }
         else
         {
             me.st = T_SLEEPING;
